@@ -3364,6 +3364,15 @@ fn write_i64(output: &mut String, mut n: i64) {
     output.push_str(unsafe { core::str::from_utf8_unchecked(&buf[i..]) });
 }
 
+/// Verification hook: direct access to the private integer writer.
+#[cfg(feature = "verif-hooks")]
+#[doc(hidden)]
+pub fn verif_write_i64(n: i64) -> String {
+    let mut s = String::new();
+    write_i64(&mut s, n);
+    s
+}
+
 /// Formats a finite `f64`, always keeping a fractional part.
 ///
 /// A scalar that [`resolve_plain`] typed as `!!float` must not be emitted as an
